@@ -183,11 +183,28 @@ func TestC13Completeness(t *testing.T) {
 		srv := &casServer{Mem: mem, streamed: streamed, factory: factory, via: via}
 		var inner blobstore.BlobAccess = srv
 		var faulty *backends.Faulty
-		faultAt, faultCode := -1, codes.OK
+		faultAt, faultCode, faultShape := -1, codes.OK, 0
 		if g.n(0, 5, "casfault") == 5 {
 			faultAt = rapid.SampledFrom([]int{0, 0, 1, 1, 2, 2, 3, 4, 5, 7}).Draw(t, "casfault/at")
 			faultCode = faultCodes[g.n(0, len(faultCodes)-1, "casfault/code")]
-			faulty = backends.NewFaulty("cas", srv, map[int]backends.Fault{faultAt: {Code: faultCode, MidStreamAfter: -1}})
+			// Fault sequences, not only single faults: a burst of
+			// consecutive failing calls (a repeated call fails as well), a
+			// second failure further on, or an outage that lasts for the
+			// rest of the call.
+			script := map[int]backends.Fault{faultAt: {Code: faultCode, MidStreamAfter: -1}}
+			switch faultShape = g.n(0, 5, "casfault/shape"); faultShape {
+			case 2, 3:
+				for i := 1; i <= faultShape-1; i++ {
+					script[faultAt+i] = backends.Fault{Code: faultCodes[g.n(0, len(faultCodes)-1, "casfault/code+")], MidStreamAfter: -1}
+				}
+			case 4:
+				script[faultAt+g.n(2, 5, "casfault/gap")] = backends.Fault{Code: faultCode, MidStreamAfter: -1}
+			case 5:
+				for i := 1; i < 64; i++ {
+					script[faultAt+i] = backends.Fault{Code: faultCode, MidStreamAfter: -1}
+				}
+			}
+			faulty = backends.NewFaulty("cas", srv, script)
 			inner = faulty
 		}
 		sp := newSpy(inner)
@@ -197,7 +214,7 @@ func TestC13Completeness(t *testing.T) {
 		acMode := g.n(0, 2, "acmode")
 		readPath := drawReadPath(t)
 		child := g.childOf(acDigest, readPath)
-		c.Add(g.instance, int(g.fn), arBytes, batch, maxTotal, faultAt, int(faultCode), fault, int(kf), acMode, serve, readPath, child.String())
+		c.Add(g.instance, int(g.fn), arBytes, batch, maxTotal, faultAt, faultShape, int(faultCode), fault, int(kf), acMode, serve, readPath, child.String())
 		for _, d := range g.order {
 			if s, ok := streamed[d]; ok {
 				c.Add(d.String(), s.chunks[0], s.eofWithData, s.failAfter)
@@ -218,7 +235,7 @@ func TestC13Completeness(t *testing.T) {
 		describe := func() string {
 			var sb strings.Builder
 			fmt.Fprintf(&sb, "  %s\n", rd)
-			fmt.Fprintf(&sb, "  instance=%q fn=%s batch=%d max_total_tree_size=%d cas_fault_at=%d tree_fault=%q malformed=%q cas_serves=%s\n", g.instance, g.fn, batch, maxTotal, faultAt, fault, g.malformDone, serve)
+			fmt.Fprintf(&sb, "  instance=%q fn=%s batch=%d max_total_tree_size=%d cas_fault_at=%d cas_fault_shape=%d tree_fault=%q malformed=%q cas_serves=%s\n", g.instance, g.fn, batch, maxTotal, faultAt, faultShape, fault, g.malformDone, serve)
 			fmt.Fprintf(&sb, "  action result: %s\n", renderAR(arBytes))
 			for _, d := range g.order {
 				state := "present"
@@ -285,6 +302,8 @@ func TestC13Completeness(t *testing.T) {
 		c.ClassIf(g.malformAt >= 0 && g.malformDone == "", "malformation_unreached")
 		c.ClassIf(len(final.malformed) > 0, "malformed_referenced")
 		c.ClassIf(fired, "cas_fault_fired")
+		c.ClassIf(fired && faultShape >= 2, "cas_fault_fired_with_further_failures_scripted")
+		c.ClassIf(faulty != nil && faulty.FiredCount() > 1, "cas_called_again_after_a_failure")
 		c.ClassIf(fired && outcome == "returned", "returned_after_a_failed_cas_call")
 		servedOnly := false
 		for _, d := range final.refOrder {
